@@ -257,6 +257,9 @@ class Trimesh(Geometry3D):
         if self.is_empty:
             return self
 
+        # normals in the cache are kept through processing: make sure
+        # they are for the current data and not from before an in-place edit
+        self._cache.verify()
         # avoid clearing the cache during operations
         with self._cache:
             # if we're cleaning remove duplicate
@@ -2459,6 +2462,10 @@ class Trimesh(Geometry3D):
         elif util.allclose(matrix, _IDENTITY4, 1e-8):
             return self
 
+        # we keep some cached values through the transform: make sure
+        # they are for the current data and not from before an in-place edit
+        self._cache.verify()
+
         # new vertex positions
         new_vertices = transformations.transform_points(self.vertices, matrix=matrix)
 
@@ -2740,6 +2747,9 @@ class Trimesh(Geometry3D):
         Alters `self.faces` by reversing columns, and negating
         `self.face_normals` and `self.vertex_normals`.
         """
+        # dump anything cached before an in-place edit of the data
+        # since the lock will keep whatever normals are in the cache
+        self._cache.verify()
         with self._cache:
             if "face_normals" in self._cache:
                 self.face_normals = self._cache["face_normals"] * -1.0
